@@ -1,5 +1,5 @@
 #include <stdint.h>
-__thread int gd_a = 414; __thread long gd_b[4] = {414, 171, 228, 210}; __thread char gd_z[7];
+__thread int gd_a = 38; __thread long gd_b[4] = {38, 404, 391, 49}; __thread char gd_z[7];
 extern __thread int tl0; extern __thread int lib_tls;
 int tlsd_get(void){ return gd_a * 3 + gd_z[0]; }
 void tlsd_bump(int v){ gd_a += v; gd_b[1] += tl0; gd_z[0] += 2; lib_tls += v; }
